@@ -275,6 +275,19 @@ INTERPRETED = {
     "str.upper": lambda s_: s_.upper(),
     "str.zfill": lambda s_, n: s_.zfill(int(n)),
     "builtins.repr": repr,
+    "str.rsplit": lambda s_, *xs: s_.rsplit(*[int(x) if isinstance(x, float) else x for x in xs]),
+    "str.split": lambda s_, *xs: s_.split(*[int(x) if isinstance(x, float) else x for x in xs]),
+    "elem": lambda a, i: a[int(i)],
+    "getitem": lambda a, i: a[int(i)] if not isinstance(i, str) else a[i],
+    "re.search": lambda p, s_: __import__("re").search(p, s_),
+    "re.findall": lambda p, s_: __import__("re").findall(p, s_),
+    "re.match": lambda p, s_: __import__("re").match(p, s_),
+    ".group": lambda m, *a: m.group(*[int(x) for x in a]),
+    "listcomp": lambda elem, it: elem,
+    "builtins.all": lambda x: bool(x),
+    "builtins.any": lambda x: bool(x),
+    "all": lambda x: bool(x),
+    "any": lambda x: bool(x),
 }
 
 
@@ -379,7 +392,8 @@ def _apply(op, a, t):
         if op == "rhu":
             return _rhu(a[0])
         if op == "int":
-            return np.trunc(np.asarray(_f(a[0]), dtype=float))
+            r = np.trunc(np.asarray(_f(a[0]), dtype=float))
+            return int(r) if r.ndim == 0 and np.isfinite(r) else r
         if op == "float":
             return np.asarray(_f(a[0]), dtype=float)
         if op == "clip":
